@@ -21,7 +21,7 @@ T = {
  "C05": ("proof", "lemmas over the contracts of C03/C04 (hint insertion, format-constraint attachment, operand swap, UNKNOWN monotonicity) proved by z3; metamorphic bounded backstop separate",
          "lemmas over contracts (z3) + metamorphic bounded backstop", ASSUME_PY + "; A-LARK-FOLD", "4 C05"),
  "C06": ("proof", "raise conditions of the callbacks proved equal to the structural criterion; ghost invariant carried by the induction steps; is_valid_expression clause relative to a bounded-validated callee (C18)",
-         "exceptional-path VCs (z3) + ghost invariant lemmas; bounded backstop", ASSUME_PY + "; generate_possible_content_evaluation_results bounded-validated only", "4 C06"),
+         "exceptional-path VCs (z3) + ghost invariant lemmas + loop-invariant VCs of gather_if_necessary; bounded backstop", ASSUME_PY + "; generate_possible_content_evaluation_results bounded-validated only", "4 C06"),
  "C07": ("other", "abstract-view VCs (which constraint takes part, operator, None-ness) proved by z3 given six parser axioms; axioms and end-to-end meaning decided by a bounded check",
          "contract VCs over a string view (z3) + bounded validation of the view axioms and of the end-to-end statement", ASSUME_PY + "; parser axioms X1-X6 (pyvc/fxview.py)", "4 C07"),
  "C08": ("proof", "Boolean value and 'message iff unfulfilled' invariant proved per callback and builder method; precedence inherited from C01 (bounded)",
